@@ -1,26 +1,70 @@
+import os as _os
+_H = _os.path.join(_os.path.dirname(_os.path.dirname(_os.path.dirname(_os.path.abspath(__file__)))), 'harness', 'c15_console.c')
 CHECK = dict(
     level='model_checking',
-    parts=[dict(name='c15', src=['harness/c15_console.c'], cflags=['-Wno-format-truncation', '-Wno-unused-but-set-variable'], workers=18,
+    # The harness file is compiled twice: as the harness (public headers only), and - with -DC15_SHIM, as one of the lib= objects
+    # whose writable sections the driver renames - as console.c plus two accessors for its static command table. Every static of
+    # the library (command table, scheduler, the help command's function-scope statics, anything a change adds) is therefore part
+    # of the image that is reset before every case and saved with every BFS state. The library objects are built with
+    # -finstrument-functions (the harness sees when one of the library's own commands is entered, whatever it prints) and
+    # -fstack-protector-all (an overrun local buffer of the library is a deterministic fault, not a jump through a smashed address).
+    parts=[dict(name='c15', src=['harness/c15_console.c'],
+                lib=['list.c', 'messageq.c', 'ringbuf.c', 'fibre.c', 'util.c', _H],
+                libflags=['-DC15_SHIM', '-finstrument-functions', '-fstack-protector-all'],
+                cflags=['-Wno-format-truncation', '-Wno-unused-but-set-variable'], workers=32,
                 deadline=dict(quick=150, thorough=1500))],
-    rule='part A: explicit-state BFS over character streams (alphabet a b SP TAB \' " BS ^C NL) delivered with console_process to the '
-         'real console.c (command table and scheduler state reached by #including the sources), from the empty line and from lines '
-         'pre-filled to 70..79 characters; state = console object + reference line editor; every completed line is compared with a '
-         'reference tokenizer (command identity, argc, argv strings, argv inside the line buffer and NUL-terminated, nothing written '
-         'outside the 80-byte line buffer). Part B: every stream up to a length bound, plus long lines around the ring size and the '
-         '79-character limit, delivered again through console_putchar + scheduler passes (per character and in bursts) and through '
-         'console_eval running in a fibre; same oracle, plus "the injection completes". Part C: every order of up to 4 registrations '
-         'from 4 names, then filling the table to capacity and beyond. distinct = distinct (line, invocation) observations',
-    bounds=dict(quick='part A depth 7 from the empty line, depth 5 from 6 pre-filled lines; part B all streams of length <=5 ending in a '
-                      'newline + 324 long streams; part C 64 orders + capacity',
-                thorough='part A depth 9 / 7; part B length <=6'),
+    rule='All sizes come from the library (line buffer = sizeof scratch.buf, a line holds one character less, table slots = '
+         'lengthof(cmd_table)); registered: a, ab (yields, then uses the scratch area), b, abababab, ababababa, Ab, !~, ~! next to '
+         'the built-ins. '
+         'Part A: explicit-state BFS over character streams delivered one character at a time with console_process to the real '
+         'console.c, from the empty line and from lines pre-filled to capacity-9 .. capacity, over two alphabets (editing: a b SP TAB '
+         '\' " BS ^C NL; case/boundary: a b A B ! ~ SP NL BS); state = console object + reference line editor + image of all '
+         'library statics; the last level is expanded on the spot and only hashed. Before every character the bytes of the scratch '
+         'union behind the line buffer are poisoned: storing and erasing must leave them alone, a command checks them when it is '
+         'dispatched (a new prompt may wipe the scratch area). Every completed line (newline, or the buffer filling: the full line '
+         'may run with its last character or with the next one, never later) is compared with a reference tokenizer: which command '
+         'ran (harness commands by capture, built-ins by function entry), exactly one, argc, argv strings, argv inside the line '
+         'buffer and NUL-terminated; unknown and empty lines run nothing. '
+         'Part B: stream families delivered through console_process, console_putchar + scheduler passes (per character and in '
+         'bursts) and console_eval in a fibre (behind every injected string lies a trap line): short = every stream up to a length; '
+         'long = lines of every length 1..capacity with 1..4 tokens (plain / all printables / quoted last argument), three endings '
+         'at capacity, followed by a second long line; unknown = first tokens of every length 1..capacity that name nothing; names = '
+         '12 spellings around every registered and built-in name (other case, one shorter / longer, neighbours); printable = each of '
+         '0x21..0x7e as a name, glued in front of and behind a name, and in arguments; tokens = every combination of six token kinds '
+         '(plain, mixed case/punctuation, single- and double-quoted, quoted with a blank, quoted with the other quote) x 3 '
+         'separators; script = many short lines, 120..1000 characters. '
+         'Part E: every sequence of 1..3 console_eval calls from 8 strings (empty, one line, two lines, unfinished line, longer than '
+         'the ring) on one console: each call exits, the commands run are those of the concatenation, once. '
+         'Part C: every order of up to 4 registrations from 4 names, and filling the table to capacity and 8 beyond in ascending and '
+         'descending name order: registration succeeds while a slot is free, a failed one leaves the whole library image unchanged, '
+         'after every step every registered name typed into a fresh console runs its own descriptor, built-ins stay found, unknown '
+         'names and the empty line run nothing',
+    bounds=dict(quick='part A: all histories of 7 characters from the empty line (both alphabets), 5 from 6 pre-filled lines (editing '
+                      'alphabet), 4 from 2 pre-filled lines (case alphabet); part B: short streams <=5, long 1144 streams, unknown 632, '
+                      'names 119, printable 94, tokens 1..5 tokens over six kinds + 6 tokens over three kinds (17271 lines), 11 scripts, '
+                      'each through 3-4 deliveries; part E 584 sequences; part C 64 orders + 2 capacity runs',
+                thorough='part A 9 / 7 characters (editing), 8 / 6 (case); short streams <=6; tokens 1..6 over six kinds + 7 over three; the rest as quick'),
     assumptions=['where the statement is silent (leading blanks, a quote inside a word, unterminated or empty quotes, text glued to a '
-                 'closing quote, a fifth token, what happens to the 80th character) only memory safety and argc<=4 are enforced',
-                 'x86-64 layout: the scratch union is 160 bytes', 'commands: a, ab (yields twice), b'],
+                 'closing quote, a fifth token or anything after the fourth, a quoted fourth token, what becomes of the character that '
+                 'follows a full buffer) only memory safety, argc<=4 and "at most one command per line" are enforced; argv slots >= argc '
+                 'are not judged',
+                 'when a full buffer is dispatched (with its last character or with the next one) is not judged; after a full line '
+                 'only Ctrl-C, newline and backspace are explored as the next character because the next line is determined only then',
+                 'the scratch union is the console\'s own: wiping all of it at a new prompt (as the header documents) is accepted; '
+                 'between prompt and dispatch nothing behind scratch.buf may change (only observable where the union is larger than '
+                 'the line buffer, as on x86-64)',
+                 'built-in commands are recognised by entry into their functions (-finstrument-functions on the library objects); '
+                 'part C identifies a descriptor by console_t.cmd inside the command (the containerof() use the header describes)',
+                 'library statics are reset by restoring the renamed data sections of the library objects; state kept elsewhere '
+                 '(heap, stdio) is not'],
     technique='explicit-state model checking (BFS over input streams against a reference line editor/tokenizer) plus bounded-exhaustive differential delivery',
-    level_text='Every input stream up to the depth bound is executed on the real console through each delivery path and every completed line '
-               'is compared with a reference editor/tokenizer; registration orders and capacity are enumerated.',
-    level_note='Trusted: the reference tokenizer (40 lines). Reduced alphabet, bounded depth.',
+    level_text='Every input stream up to the depth bound is executed on the real console, character by character, and every completed '
+               'line is compared with a reference editor/tokenizer; systematic families of longer lines (every length up to the buffer '
+               'capacity, every printable character, 1..6 tokens with quotes, unknown names of every length) go through each delivery '
+               'path; sequences of console_eval calls, registration orders and table capacity are enumerated.',
+    level_note='Trusted: the reference editor/tokenizer (60 lines). Reduced alphabets, bounded depth; longer inputs only from the stated families.',
     design_ref='DESIGN.md section 4 (C15)',
 )
 
 CHECK['variants'] = ['c15']
+CHECK['variant_unsigned_char'] = True
